@@ -706,7 +706,7 @@ pub fn run(tier: Tier, seed: u64, sanitizer_slice: bool) -> i32 {
   rep.floor("goto_unresolved_markers", tier.pick(500, 10_000));
   rep.floor("corpus_symbol_specs_run", 30);
   rep.min_nontrivial = tier.pick(1500, 50_000);
-  let n = tier.pick(4000, 150_000);
+  let n = tier.pick(24000, 900000);
   let mut acc = par_run(n, |i, acc| gen_case(i, seed, acc, false));
   corpus(&mut acc);
   rep.finish(acc)
